@@ -2,9 +2,12 @@ pub mod c01;
 pub mod c02;
 pub mod c03;
 pub mod c04;
+pub mod c05;
+pub mod c06;
 pub mod c09;
 pub mod c10;
 pub mod c11;
+pub mod c14;
 pub mod c15;
 pub mod common;
 
@@ -17,9 +20,12 @@ pub fn run(id: &str, ctx: &Ctx) -> Option<Report> {
         "C02" => c02::run(ctx),
         "C03" => c03::run(ctx),
         "C04" => c04::run(ctx),
+        "C05" => c05::run(ctx),
+        "C06" => c06::run(ctx),
         "C09" => c09::run(ctx),
         "C10" => c10::run(ctx),
         "C11" => c11::run(ctx),
+        "C14" => c14::run(ctx),
         "C15" => c15::run(ctx),
         _ => return None,
     })
@@ -31,9 +37,12 @@ pub fn replay(id: &str, stage: &str, case: &Value) -> Option<Check> {
         "C02" => c02::replay(stage, case),
         "C03" => c03::replay(stage, case),
         "C04" => c04::replay(stage, case),
+        "C05" => c05::replay(stage, case),
+        "C06" => c06::replay(stage, case),
         "C09" => c09::replay(stage, case),
         "C10" => c10::replay(stage, case),
         "C11" => c11::replay(stage, case),
+        "C14" => c14::replay(stage, case),
         "C15" => c15::replay(stage, case),
         _ => return None,
     })
